@@ -38,7 +38,8 @@ type RunSpec struct {
 	Obligation   string           `json:"obligation"`
 	Workers      int              `json:"workers"`
 	// Variants: the run is repeated for each parameter overlay (e.g. role/compression combinations)
-	Variants []map[string]int64 `json:"variants"`
+	Variants      []map[string]int64 `json:"variants"`
+	QuickVariants []map[string]int64 `json:"quick_variants"` // if set, the quick tier runs these instead of Variants
 }
 
 type PropSpec struct {
@@ -193,6 +194,9 @@ func cmdCheck(args []string) {
 			base = mergeParams(rs.Quick, rs.Thorough)
 		}
 		variants := rs.Variants
+		if *tier != "thorough" && len(rs.QuickVariants) > 0 {
+			variants = rs.QuickVariants
+		}
 		if len(variants) == 0 {
 			variants = []map[string]int64{nil}
 		}
